@@ -1,4 +1,4 @@
-(* C12 - Mech model of interface dispatch, self copy-in / write-back and impl statics.
+(* C12 - Mech model of interface dispatch, self copy-in / write-back, the impl-context stack and impl statics.
    Definitions only (total, computable, extracted to OCaml and run against /repo's `main` by
    harness/props/c12.py).  Mirrored code (all under src/backend/interpreter unless said otherwise):
 
@@ -11,19 +11,24 @@
                                      ("Incomplete implementation", "Duplicate implementation")
      managers/variables/manager.cpp  assign_interface_view, interface_impl_exists,
                                      resolve_interface_source_type, find_variable (impl statics last)
-     managers/variables/static.cpp   get_impl_static_namespace, enter/exit_impl_context (enter remembers an active context, exit restores it),
-                                     find_impl_static_variable, create_impl_static_variable
+     managers/variables/static.cpp   get_impl_static_namespace, enter_impl_context (an active context is pushed on
+                                     enclosing_impl_contexts), exit_impl_context (back() is restored and popped):
+                                     ictx / enter_ctx / exit_ctx, find_impl_static_variable, create_impl_static_variable
      evaluator/functions/call_impl.cpp  method lookup by  type_name + "::" + name  (line ~1018),
                                      self copy-in (~4330), enter_impl_context with the pair read from
                                      the method's qualified_name "I::T::m" (~5725, fix ffeef7f), body,
-                                     exit (restores the caller's context, fix 3be9fd7), SELF_WRITEBACK
+                                     exit_impl_context on the `return` path (~6486) and on the fall-through
+                                     path of void methods (~6094), SELF_WRITEBACK (both paths), the
+                                     "parent self" update after a void method (~6260)
      evaluator/access/receiver_resolution.cpp  variable / pointer / array-element receivers
      handlers/control/return.cpp     handle_identifier_return (`return self;`)
 
    Abstractions (see notes/C12.md): a struct value is one field list (the flattened
    "x.f" variables and Variable::struct_members are one thing here); every field, argument,
-   static and result is an `int`; method bodies are straight-line, with calls  self.m(e)  of
-   call-free methods (one level of nesting). *)
+   static and result is an `int`; every method is  int m(int d)  or  void m(int d); a body is a
+   sequence of assignments to self fields / impl statics, println, calls  self.m(e), operations on
+   objects the body declares itself (the same operations main has: SOp) and `if (e > 0)` guards.
+   Calls nest to any depth: the semantics is indexed by fuel (run_n), run_program uses 64. *)
 From Coq Require Import List Arith Bool Ascii String ZArith Lia.
 Import ListNotations.
 Local Open Scope string_scope.
@@ -51,6 +56,28 @@ Fixpoint aremove {A : Type} (k : string) (l : list (string * A)) : list (string 
   end.
 Definition smem (k : string) (l : list string) : bool := existsb (String.eqb k) l.
 
+(* ---------- values, receivers, operations on a scope ---------- *)
+Inductive payload := PStruct (fs : list (name * Z)) | PPrim (v : Z).
+Inductive value :=
+| VConc (t : name) (p : payload)           (* struct variable / typedef'd primitive variable of type t *)
+| VIface (i t : name) (p : payload)        (* interface_name, struct_type_name = implementing_struct, private copy *)
+| VPtr (x : name)                          (* pointer to the variable x *)
+| VArr (t : name) (es : list payload)      (* array of structs *).
+
+Inductive loc := LVar (x : name) | LElem (a : name) (i : nat).
+Inductive recv := RVar (x : name) | RPtr (p : name) | RElem (a : name) (i : nat).
+
+(* operations of main - and, since method bodies may declare objects of their own, of a method body - on
+   the variables of the current scope *)
+Inductive op :=
+| OBind (x i src : name)                 (* "i x = src;" the first time, "x = src;" afterwards *)
+| OPtr (p x : name)                      (* "T* p = &x;" / "p = &x;" *)
+| OCall (r : recv) (m : name) (arg : Z)  (* println(r.m(arg));   ( r.m(arg); println(0);  when m is void ) *)
+| OVia (h : name) (src : name) (d : Z)   (* h(src, d); *)
+| OSet (x f : name) (z : Z)              (* x.f = z;   (x = z; for a primitive, f ignored) *)
+| OSetElem (a : name) (i : nat) (f : name) (z : Z)
+| OShow (x : name).
+
 (* ---------- method bodies ---------- *)
 Inductive expr :=
 | EConst (z : Z)
@@ -63,18 +90,17 @@ Inductive stmt :=
 | SSetField (f : name) (e : expr)        (* self.f = e; *)
 | SSetStatic (n : name) (e : expr)       (* n = e; *)
 | SPrint (tag : string) (es : list expr) (* println("tag", e1, ...); *)
-| SCallSelf (tag : string) (m : name) (e : expr) (* int r = self.m(e); println("tag", r); *).
-Record method := { m_name : name; m_body : list stmt; m_ret : expr }.
+| SCallSelf (tag : string) (m : name) (e : expr) (* int r = self.m(e); println("tag", r);   ( self.m(e); println("tag", 0); when m is void ) *)
+| SOp (o : op)                           (* an operation on the objects the body declares (m_locals): binding, pointers,
+                                            calls through variable / interface copy / pointer / array element, helper
+                                            calls with a local as argument, writes, reads *)
+| SGuard (g : expr) (s : stmt)           (* if (g > 0) { s } *).
+Record method := { m_name : name;
+                   m_void : bool;                      (* void m(int d) { body }  : no return statement, the call yields 0 *)
+                   m_locals : list (name * value);     (* objects declared at the top of the body *)
+                   m_body : list stmt; m_ret : expr }.
 Record impl_def := { i_iface : name; i_type : name; i_statics : list (name * Z); i_methods : list method }.
 Definition method_names (d : impl_def) : list name := map m_name (i_methods d).
-
-(* ---------- values ---------- *)
-Inductive payload := PStruct (fs : list (name * Z)) | PPrim (v : Z).
-Inductive value :=
-| VConc (t : name) (p : payload)           (* struct variable / typedef'd primitive variable of type t *)
-| VIface (i t : name) (p : payload)        (* interface_name, struct_type_name = implementing_struct, private copy *)
-| VPtr (x : name)                          (* pointer to the variable x *)
-| VArr (t : name) (es : list payload)      (* array of structs *).
 
 Definition line := (string * list Z)%type.  (* println("tag", z1, ...) ; tag "" = println(z) *)
 
@@ -87,7 +113,8 @@ Inductive err :=
 | EUndefFunc (m : name)           (* Undefined function *)
 | ERange                          (* value outside int: generator discards such programs *)
 | EBad                            (* ill-formed model input (never produced by the generator) *)
-| EUnmodelled                     (* documented hole: an interface variable mixing struct and primitive payloads *).
+| EUnmodelled                     (* documented hole: an interface variable mixing struct and primitive payloads *)
+| EFuel                           (* call nesting deeper than the fuel given to run_program (never reached by generated programs) *).
 
 (* ---------- registration ---------- *)
 (* a registered method node: handle_impl_declaration stamps it with qualified_name = I::T::m *)
@@ -146,13 +173,39 @@ Fixpoint parse_check (ifs : list (name * list name)) (seen ds : list impl_def) :
       end
   end.
 
-(* ---------- execution of one method body ---------- *)
+(* ---------- the impl-static context: static.cpp current_impl_context_ + enclosing_impl_contexts ---------- *)
+(* c_stack is the vector enclosing_impl_contexts, innermost saved context first (head = back()) *)
+Record ictx := { c_cur : option (name * name); c_stack : list (name * name) }.
+Definition ctx0 : ictx := {| c_cur := None; c_stack := [] |}.
+(* enter_impl_context: an active context is pushed, then replaced *)
+Definition enter_ctx (c : ictx) (p : name * name) : ictx :=
+  {| c_cur := Some p; c_stack := match c_cur c with Some q => q :: c_stack c | None => c_stack c end |}.
+(* exit_impl_context: the innermost saved context (back()) is put back and popped; none saved: inactive *)
+Definition exit_ctx (c : ictx) : ictx :=
+  match c_stack c with
+  | q :: r => {| c_cur := Some q; c_stack := r |}
+  | [] => ctx0
+  end.
+
+(* ---------- frames and states ---------- *)
 Record frame := {
   f_self : payload; f_arg : Z;
+  f_vars : list (name * value);          (* the body's own objects (m_locals and what SOp declares) *)
   f_statics : list (string * Z);
-  f_ctx : option (name * name);          (* current_impl_context_ while the body runs *)
+  f_ctx : ictx;                          (* the impl context while the body runs *)
   f_out : list line
 }.
+Record state := {
+  s_impls : list impl_def;
+  s_funcs : list (string * fentry);
+  s_statics : list (string * Z);
+  s_vars : list (name * value);
+  s_ctx : ictx;
+  s_out : list line
+}.
+Inductive res (A : Type) := Ok (a : A) | Fail (out : list line) (e : err).
+Arguments Ok {A} a. Arguments Fail {A} out e.
+
 Definition static_name (ctx : option (name * name)) (n : name) : option string :=
   match ctx with Some (i, t) => Some (static_key i t n) | None => None end.
 Definition static_lookup (ctx : option (name * name)) (ss : list (string * Z)) (n : name) : option Z :=
@@ -174,7 +227,7 @@ Fixpoint eval (fr : frame) (e : expr) : Z + err :=
                 | PStruct fs => match alookup f fs with Some v => inl v | None => inr EBad end
                 | PPrim _ => inr EBad
                 end
-  | EStatic n => match static_lookup (f_ctx fr) (f_statics fr) n with Some v => inl v | None => inr (EUndefVar n) end
+  | EStatic n => match static_lookup (c_cur (f_ctx fr)) (f_statics fr) n with Some v => inl v | None => inr (EUndefVar n) end
   | EAdd a b => bin Z.add a b
   | ESub a b => bin Z.sub a b
   | EMul a b => bin Z.mul a b
@@ -188,110 +241,7 @@ Fixpoint eval_list (fr : frame) (es : list expr) : list Z + err :=
               end
   end.
 
-(* a nested call  self.m(arg)  made from a running body: the frame after it and its result *)
-Definition callback := name -> Z -> frame -> (frame * Z) + (list line * err).
-
-(* on an error the output printed so far is kept (the process exits 1 after flushing it) *)
-Definition exec_stmt (cb : callback) (fr : frame) (s : stmt) : frame + (list line * err) :=
-  match s with
-  | SSetField f e =>
-      match eval fr e with
-      | inr x => inr (f_out fr, x)
-      | inl v =>
-          match f_self fr with
-          | PStruct fs =>
-              match alookup f fs with
-              | None => inr (f_out fr, EBad)
-              | Some _ => if int_ok v then inl {| f_self := PStruct (aset f v fs); f_arg := f_arg fr; f_statics := f_statics fr;
-                                                   f_ctx := f_ctx fr; f_out := f_out fr |}
-                          else inr (f_out fr, ERange)
-              end
-          | PPrim _ => inr (f_out fr, EBad)
-          end
-      end
-  | SSetStatic n e =>
-      match eval fr e with
-      | inr x => inr (f_out fr, x)
-      | inl v =>
-          match static_name (f_ctx fr) n with
-          | None => inr (f_out fr, EUndefVar n)
-          | Some k =>
-              match alookup k (f_statics fr) with
-              | None => inr (f_out fr, EUndefVar n)
-              | Some _ => if int_ok v then inl {| f_self := f_self fr; f_arg := f_arg fr; f_statics := aset k v (f_statics fr);
-                                                   f_ctx := f_ctx fr; f_out := f_out fr |}
-                          else inr (f_out fr, ERange)
-              end
-          end
-      end
-  | SPrint tag es =>
-      match eval_list fr es with
-      | inr x => inr (f_out fr, x)
-      | inl vs => inl {| f_self := f_self fr; f_arg := f_arg fr; f_statics := f_statics fr; f_ctx := f_ctx fr;
-                         f_out := f_out fr ++ [(tag, vs)] |}
-      end
-  | SCallSelf tag m e =>
-      match eval fr e with
-      | inr x => inr (f_out fr, x)
-      | inl v =>
-          match cb m v fr with
-          | inr x => inr x
-          | inl (fr1, z) => inl {| f_self := f_self fr1; f_arg := f_arg fr1; f_statics := f_statics fr1; f_ctx := f_ctx fr1;
-                                   f_out := f_out fr1 ++ [(tag, [z])] |}
-          end
-      end
-  end.
-Fixpoint exec_body (cb : callback) (fr : frame) (b : list stmt) : frame + (list line * err) :=
-  match b with
-  | [] => inl fr
-  | s :: r => match exec_stmt cb fr s with inl fr' => exec_body cb fr' r | inr x => inr x end
-  end.
-
-(* one registered method run to completion: the impl context is the pair of the block that declares it
-   (call_impl.cpp ~5725: qualified_name), whatever the receiver is *)
-Definition run_method (cb : callback) (fe : fentry) (self : payload) (arg : Z)
-                      (statics : list (string * Z)) (out : list line) : (frame * Z) + (list line * err) :=
-  let fr := {| f_self := self; f_arg := arg; f_statics := statics; f_ctx := Some (fe_iface fe, fe_type fe); f_out := out |} in
-  match exec_body cb fr (m_body (fe_meth fe)) with
-  | inr x => inr x
-  | inl fr' => match eval fr' (m_ret (fe_meth fe)) with
-               | inr x => inr (f_out fr', x)
-               | inl z => inl (fr', z)
-               end
-  end.
-
-(* methods called from a body are call-free (one level of nesting; deeper programs are not generated) *)
-Definition no_nested : callback := fun _ _ fr => inr (f_out fr, EBad).
-(* self.m(arg) inside a method whose self has dynamic type t: same lookup T::m; the callee runs under ITS
-   block's context on a copy of the caller's current self; on return the caller's context is back
-   (static.cpp: enter pushes, exit pops) and - as the pinned code does - the callee's writes to self
-   are NOT carried back into the caller's self (finding C12-nested-self-writes-lost) *)
-Definition nested_self (funcs : list (string * fentry)) (t : name) : callback := fun m arg fr =>
-  match alookup (method_key t m) funcs with
-  | None => inr (f_out fr, EUndefFunc m)
-  | Some fe =>
-      match run_method no_nested fe (f_self fr) arg (f_statics fr) (f_out fr) with
-      | inr x => inr x
-      | inl (fr', z) =>
-          inl ({| f_self := f_self fr; f_arg := f_arg fr; f_statics := f_statics fr'; f_ctx := f_ctx fr; f_out := f_out fr' |}, z)
-      end
-  end.
-
-(* ---------- program state ---------- *)
-Record state := {
-  s_impls : list impl_def;
-  s_funcs : list (string * fentry);
-  s_statics : list (string * Z);
-  s_vars : list (name * value);
-  s_ctx : option (name * name);          (* current_impl_context_ between calls (every call puts it back) *)
-  s_out : list line
-}.
-Inductive res (A : Type) := Ok (a : A) | Fail (out : list line) (e : err).
-Arguments Ok {A} a. Arguments Fail {A} out e.
-
-Inductive loc := LVar (x : name) | LElem (a : name) (i : nat).
-Inductive recv := RVar (x : name) | RPtr (p : name) | RElem (a : name) (i : nat).
-
+(* ---------- receivers ---------- *)
 (* resolve_method_receiver: a variable; pointer dereference (call_impl.cpp ~938); "a[i]" *)
 Definition resolve (vs : list (name * value)) (r : recv) : option loc :=
   match r with
@@ -351,27 +301,35 @@ Definition receiver (vs : list (name * value)) (r : recv) : option (loc * value 
       end
   end.
 
-(* run the registered method with self := the copy, then write self back into the receiver; the impl
-   context the caller had is in force again afterwards *)
-Definition invoke (st : state) (l : loc) (v : value) (t : name) (self : payload) (fe : fentry) (arg : Z) : res (state * Z) :=
-  match run_method (nested_self (s_funcs st) t) fe self arg (s_statics st) (s_out st) with
+(* ---------- one method call, given how a registered method runs ---------- *)
+(* `runner`: a registered method run to completion on (dynamic type of the receiver, self, argument) from
+   the caller's state (its statics, output and impl context; its variables are not visible to the callee):
+   the callee's final frame and the returned int.  run_n below ties the knot with fuel. *)
+Definition runner := fentry -> name -> payload -> Z -> state -> (frame * Z) + (list line * err).
+Definition caller := state -> recv -> name -> Z -> res (state * Z).
+
+(* run the registered method with self := the copy, then write self back into the receiver
+   (SELF_WRITEBACK); exit_impl_context gives the context in force afterwards *)
+Definition invoke_g (run : runner) (st : state) (l : loc) (v : value) (t : name) (self : payload) (fe : fentry) (arg : Z)
+  : res (state * Z) :=
+  match run fe t self arg st with
   | inr (o, x) => Fail o x
   | inl (fr', z) =>
       Ok ({| s_impls := s_impls st; s_funcs := s_funcs st;
              s_statics := f_statics fr';
-             s_vars := write (s_vars st) l (with_payload v (f_self fr'));      (* SELF_WRITEBACK *)
-             s_ctx := s_ctx st;                                                (* exit_impl_context: restored *)
+             s_vars := write (s_vars st) l (with_payload v (f_self fr'));
+             s_ctx := exit_ctx (f_ctx fr');
              s_out := f_out fr' |}, z)
   end.
 
 (* one method call  recv.m(arg)  : state after the call and the returned int *)
-Definition call (st : state) (r : recv) (m : name) (arg : Z) : res (state * Z) :=
+Definition call_g (run : runner) : caller := fun st r m arg =>
   match receiver (s_vars st) r with
   | None => Fail (s_out st) EBad
   | Some (l, v, t, self) =>
       match alookup (method_key t m) (s_funcs st) with            (* global_scope.functions.find(type_name + "::" + name) *)
       | None => Fail (s_out st) (EUndefFunc m)
-      | Some fe => invoke st l v t self fe arg
+      | Some fe => invoke_g run st l v t self fe arg
       end
   end.
 
@@ -396,33 +354,25 @@ Definition bind (st : state) (x i src : name) : res state :=
     end
   end.
 
-(* ---------- main-level operations ---------- *)
+(* ---------- operations on a scope (main, or a method body's own objects) ---------- *)
 Record helper := { h_name : name; h_param : name;      (* int h(P p, int d) { println("h", p.m(d + c)); ... return 0; } *)
                    h_iface : option name;              (* Some i : parameter of interface type i ; None : of the concrete type of the argument *)
                    h_calls : list (name * Z) }.
-Inductive op :=
-| OBind (x i src : name)                 (* "i x = src;" the first time, "x = src;" afterwards *)
-| OPtr (p x : name)                      (* "T* p = &x;" / "p = &x;" *)
-| OCall (r : recv) (m : name) (arg : Z)  (* println(r.m(arg)); *)
-| OVia (h : name) (src : name) (d : Z)   (* h(src, d); *)
-| OSet (x f : name) (z : Z)              (* x.f = z;   (x = z; for a primitive, f ignored) *)
-| OSetElem (a : name) (i : nat) (f : name) (z : Z)
-| OShow (x : name).
 
 Definition show_payload (p : payload) : list Z :=
   match p with PStruct fs => map snd fs | PPrim v => [v] end.
 
-Fixpoint run_calls (st : state) (tag : string) (r : recv) (d : Z) (cs : list (name * Z)) : res state :=
+Fixpoint run_calls_g (call : caller) (st : state) (tag : string) (r : recv) (d : Z) (cs : list (name * Z)) : res state :=
   match cs with
   | [] => Ok st
   | (m, c) :: rest =>
       match call st r m (d + c)%Z with
       | Fail o x => Fail o x
-      | Ok (st', z) => run_calls (emit st' (tag, [z])) tag r d rest
+      | Ok (st', z) => run_calls_g call (emit st' (tag, [z])) tag r d rest
       end
   end.
 
-Definition step (hs : list helper) (st : state) (o : op) : res state :=
+Definition step_g (call : caller) (hs : list helper) (st : state) (o : op) : res state :=
   match o with
   | OBind x i src => bind st x i src
   | OPtr p x => match alookup x (s_vars st) with
@@ -449,7 +399,7 @@ Definition step (hs : list helper) (st : state) (o : op) : res state :=
           match entered with
           | Fail o x => Fail o x
           | Ok st1 =>
-              match run_calls st1 h (RVar p) d (h_calls hh) with
+              match run_calls_g call st1 h (RVar p) d (h_calls hh) with
               | Fail o x => Fail o x
               | Ok st2 => Ok (set_vars st2 (aremove p (s_vars st2)))     (* pop_scope *)
               end
@@ -482,10 +432,131 @@ Definition step (hs : list helper) (st : state) (o : op) : res state :=
       end
   end.
 
-Fixpoint run_ops (hs : list helper) (st : state) (os : list op) : res state :=
+(* ---------- execution of one method body ---------- *)
+(* the scope a body's SOp statements act on: the body's own objects, under the body's context; g supplies
+   the (constant) impl list and function table *)
+Definition st_of (g : state) (fr : frame) : state :=
+  {| s_impls := s_impls g; s_funcs := s_funcs g; s_statics := f_statics fr; s_vars := f_vars fr; s_ctx := f_ctx fr; s_out := f_out fr |}.
+
+(* a nested call  self.m(arg)  made from a running body: the frame after it and its result *)
+Definition callback := name -> Z -> frame -> (frame * Z) + (list line * err).
+
+(* self.m(arg) inside a method whose receiver has dynamic type t: same lookup T::m; the callee runs under ITS
+   block's context on a copy of the caller's current self; on return the caller's context is back.  What
+   the callee wrote to self reaches the caller's self only when the callee is a void method (the write-back
+   after a fall-through end, call_impl.cpp ~6260 "parent self"); after `return e;` the pinned code drops
+   it (finding C12-nested-self-writes-lost) *)
+Definition nested_self_g (run : runner) (g : state) (t : name) : callback := fun m arg fr =>
+  match alookup (method_key t m) (s_funcs g) with
+  | None => inr (f_out fr, EUndefFunc m)
+  | Some fe =>
+      match run fe t (f_self fr) arg (st_of g fr) with
+      | inr x => inr x
+      | inl (fr', z) =>
+          inl ({| f_self := if m_void (fe_meth fe) then f_self fr' else f_self fr;
+                  f_arg := f_arg fr; f_vars := f_vars fr; f_statics := f_statics fr';
+                  f_ctx := exit_ctx (f_ctx fr'); f_out := f_out fr' |}, z)
+      end
+  end.
+
+(* on an error the output printed so far is kept (the process exits 1 after flushing it) *)
+Fixpoint exec_stmt (run : runner) (hs : list helper) (g : state) (t : name) (fr : frame) (s : stmt) : frame + (list line * err) :=
+  match s with
+  | SSetField f e =>
+      match eval fr e with
+      | inr x => inr (f_out fr, x)
+      | inl v =>
+          match f_self fr with
+          | PStruct fs =>
+              match alookup f fs with
+              | None => inr (f_out fr, EBad)
+              | Some _ => if int_ok v then inl {| f_self := PStruct (aset f v fs); f_arg := f_arg fr; f_vars := f_vars fr;
+                                                   f_statics := f_statics fr; f_ctx := f_ctx fr; f_out := f_out fr |}
+                          else inr (f_out fr, ERange)
+              end
+          | PPrim _ => inr (f_out fr, EBad)
+          end
+      end
+  | SSetStatic n e =>
+      match eval fr e with
+      | inr x => inr (f_out fr, x)
+      | inl v =>
+          match static_name (c_cur (f_ctx fr)) n with
+          | None => inr (f_out fr, EUndefVar n)
+          | Some k =>
+              match alookup k (f_statics fr) with
+              | None => inr (f_out fr, EUndefVar n)
+              | Some _ => if int_ok v then inl {| f_self := f_self fr; f_arg := f_arg fr; f_vars := f_vars fr;
+                                                   f_statics := aset k v (f_statics fr); f_ctx := f_ctx fr; f_out := f_out fr |}
+                          else inr (f_out fr, ERange)
+              end
+          end
+      end
+  | SPrint tag es =>
+      match eval_list fr es with
+      | inr x => inr (f_out fr, x)
+      | inl vs => inl {| f_self := f_self fr; f_arg := f_arg fr; f_vars := f_vars fr; f_statics := f_statics fr; f_ctx := f_ctx fr;
+                         f_out := f_out fr ++ [(tag, vs)] |}
+      end
+  | SCallSelf tag m e =>
+      match eval fr e with
+      | inr x => inr (f_out fr, x)
+      | inl v =>
+          match nested_self_g run g t m v fr with
+          | inr x => inr x
+          | inl (fr1, z) => inl {| f_self := f_self fr1; f_arg := f_arg fr1; f_vars := f_vars fr1; f_statics := f_statics fr1;
+                                   f_ctx := f_ctx fr1; f_out := f_out fr1 ++ [(tag, [z])] |}
+          end
+      end
+  | SOp o =>
+      match step_g (call_g run) hs (st_of g fr) o with
+      | Fail out x => inr (out, x)
+      | Ok st' => inl {| f_self := f_self fr; f_arg := f_arg fr; f_vars := s_vars st'; f_statics := s_statics st';
+                         f_ctx := s_ctx st'; f_out := s_out st' |}
+      end
+  | SGuard ge s' =>
+      match eval fr ge with
+      | inr x => inr (f_out fr, x)
+      | inl v => if (0 <? v)%Z then exec_stmt run hs g t fr s' else inl fr
+      end
+  end.
+Fixpoint exec_body (run : runner) (hs : list helper) (g : state) (t : name) (fr : frame) (b : list stmt) : frame + (list line * err) :=
+  match b with
+  | [] => inl fr
+  | s :: r => match exec_stmt run hs g t fr s with inl fr' => exec_body run hs g t fr' r | inr x => inr x end
+  end.
+
+(* one registered method run to completion: enter_impl_context with the pair of the block that declares it
+   (call_impl.cpp ~5725: qualified_name), whatever the receiver is; the body's own objects are fresh *)
+Definition frame0 (fe : fentry) (self : payload) (arg : Z) (st : state) : frame :=
+  {| f_self := self; f_arg := arg; f_vars := m_locals (fe_meth fe); f_statics := s_statics st;
+     f_ctx := enter_ctx (s_ctx st) (fe_iface fe, fe_type fe); f_out := s_out st |}.
+Definition run_method_g (run : runner) (hs : list helper) : runner := fun fe t self arg st =>
+  match exec_body run hs st t (frame0 fe self arg st) (m_body (fe_meth fe)) with
+  | inr x => inr x
+  | inl fr' => if m_void (fe_meth fe) then inl (fr', 0%Z)
+               else match eval fr' (m_ret (fe_meth fe)) with
+                    | inr x => inr (f_out fr', x)
+                    | inl z => inl (fr', z)
+                    end
+  end.
+
+(* nesting depth bounded by fuel: run_n (S k) runs a body whose calls are run by run_n k *)
+Fixpoint run_n (n : nat) (hs : list helper) : runner :=
+  match n with
+  | O => fun _ _ _ _ st => inr (s_out st, EFuel)
+  | S k => run_method_g (run_n k hs) hs
+  end.
+
+Definition call (n : nat) (hs : list helper) : caller := call_g (run_n n hs).
+Definition invoke (n : nat) (hs : list helper) := invoke_g (run_n n hs).
+Definition step (n : nat) (hs : list helper) : state -> op -> res state := step_g (call n hs) hs.
+Definition run_calls (n : nat) (hs : list helper) := run_calls_g (call n hs).
+
+Fixpoint run_ops (n : nat) (hs : list helper) (st : state) (os : list op) : res state :=
   match os with
   | [] => Ok st
-  | o :: rest => match step hs st o with Ok st' => run_ops hs st' rest | Fail out x => Fail out x end
+  | o :: rest => match step n hs st o with Ok st' => run_ops n hs st' rest | Fail out x => Fail out x end
   end.
 
 Record program := {
@@ -497,18 +568,20 @@ Record program := {
 }.
 
 Definition init_state (r : registry) (vs : list (name * value)) : state :=
-  {| s_impls := r_impls r; s_funcs := r_funcs r; s_statics := r_statics r; s_vars := vs; s_ctx := None; s_out := [] |}.
+  {| s_impls := r_impls r; s_funcs := r_funcs r; s_statics := r_statics r; s_vars := vs; s_ctx := ctx0; s_out := [] |}.
 
-Definition run_program (p : program) : list line * option err :=
+Definition run_program_n (n : nat) (p : program) : list line * option err :=
   match parse_check (p_ifaces p) [] (p_impls p) with
   | Some e => ([], Some e)
   | None =>
       match register_all empty_registry (p_impls p) with
       | inr e => ([], Some e)
       | inl r =>
-          match run_ops (p_helpers p) (init_state r (p_vars p)) (p_ops p) with
+          match run_ops n (p_helpers p) (init_state r (p_vars p)) (p_ops p) with
           | Ok st => (s_out st, None)
           | Fail out e => (out, Some e)
           end
       end
   end.
+(* call nesting up to 64 deep (generated programs stay below 20) *)
+Definition run_program (p : program) : list line * option err := run_program_n 64 p.
